@@ -161,3 +161,37 @@ class Component:
 
     def copy(self):
         return Component(self.v)
+
+
+# memoryview is modelled as the bytes it views (lib.f_memoryview): its methods used by tnetstring
+from .lib import method  # noqa: E402
+
+
+@method(SBytes, "tobytes")
+def _mv_tobytes(it, s):
+    return s
+
+
+@function(float)
+def f_float(it, x=None):
+    """float(): exact on ints/floats; for bytes/str input the accepted syntax and the value are library behaviour
+    (uninterpreted): either a float value or ValueError"""
+    if x is None:
+        return SFloat(0.0)
+    x = it.resolve(x)
+    if isinstance(x, SFloat):
+        return x
+    if isinstance(x, (SInt, SBool)):
+        return SFloat(z3.ToReal(_zi(x)))
+    if isinstance(x, (SStr, SBytes)):
+        c = x.concrete()
+        if c is not None:
+            try:
+                return lift(float(c))
+            except ValueError as e:
+                raise I.PyExc(exc_obj_from(e))
+        ok = uf("float_parsable", z3.StringSort(), z3.BoolSort())(x.t)
+        if it.branch(SBool(ok)):
+            return SFloat(uf("float_parse", z3.StringSort(), z3.RealSort())(x.t))
+        it.raise_(ValueError, "could not convert string to float")
+    it.raise_(TypeError, "float() argument must be a string or a real number")
